@@ -225,6 +225,8 @@ func c12Run(c *Ctx) {
 			singles = append(singles, o)
 		}
 	}
+	// new paths with multi-byte characters whose code points end in the byte of '*' or '[' (well formed)
+	singles = append(singles, "a:\u305b", "k:x.\u012a", "*:\u062a", "ab:\u015b.y", "a.ab:\u00e9", "a")
 	singles = append(singles, "a:", ":a", "a:b:c", "a:b*", "a:b[0]", "z:x*", "z:y[0]", "a.", "a:x.", "*", "a[0]", "z:x[", "")
 	var reduced []string
 	for _, o := range []string{"a", "ab", "k", "*", "a[0]", "a.ab", "k.*", "z"} {
